@@ -13,9 +13,11 @@ open AM AM.Tr
 def lastValid (p : Int) (h : List Op) : Option Login :=
   ((loginsOf h).filter fun l => l.valid && l.pid == p).getLast?
 
-/-- the LOGIN-type records of `h` that name PID `p` -/
-def openers (p : Int) (h : List Op) : List AEvent :=
-  (auditsOf h).filter fun e => e.typ == .login && atoi e.pidTok == some p
+/-- the LOGIN-type records of `h` that name PID `p` and carry a session -/
+def isOpenerOf (p : Int) (e : AEvent) : Bool :=
+  e.typ == .login && atoi e.pidTok == some p && !(e.ses = [] || e.ses = strOf "unset")
+
+def openers (p : Int) (h : List Op) : List AEvent := (auditsOf h).filter (isOpenerOf p)
 
 theorem lastValid_login (p : Int) (h : List Op) (l : Login) :
     lastValid p (h ++ [.remoteLogin l]) = if l.valid && l.pid == p then some l else lastValid p h := by
@@ -36,7 +38,7 @@ theorem lastValid_cleanL (p : Int) (h : List Op) (t : Time) :
 
 theorem openers_audit (p : Int) (h : List Op) (e : AEvent) (now : Time) :
     openers p (h ++ [.audit e now]) =
-      openers p h ++ (if e.typ == .login && atoi e.pidTok == some p then [e] else []) := by
+      openers p h ++ (if isOpenerOf p e then [e] else []) := by
   simp only [openers, auditsOf_append, auditsOf, List.filter_append, List.filter_cons, List.filter_nil]
 
 theorem openers_other (p : Int) (h : List Op) (op : Op) (hno : ∀ e now, op ≠ .audit e now) :
@@ -220,7 +222,12 @@ theorem invL_audit {p : Int} {h : List Op} {st : St} (e : AEvent) (now : Time) (
   simp only [audit]
   split
   · exact keep hi rfl rfl hlv hop
-  · split
+  · rename_i hses
+    have hopen : ∀ q', q' = p → e.typ = .login → atoi e.pidTok = some q' → isOpenerOf p e = true := by
+      intro q' hq' ht ha
+      have : (e.ses = [] || e.ses = strOf "unset") = false := by simpa using hses
+      simp [isOpenerOf, ht, ha, hq', this]
+    split
     · rename_i u hlook
       have hm : (e.ses, u) ∈ st.sessions := aLookup_mem hlook
       split
@@ -271,7 +278,7 @@ theorem invL_audit {p : Int} {h : List Op} {st : St} (e : AEvent) (now : Time) (
           have isOp : q = p → openers p h = [] := by
             intro hqp
             have : (openers p (h ++ [.audit e now])) = openers p h ++ [e] := by
-              rw [openers_audit]; simp [hty, hq, hqp]
+              rw [openers_audit]; simp [hopen q hqp hty hq]
             rw [this] at hu
             simp only [List.length_append, List.length_cons, List.length_nil] at hu
             exact List.eq_nil_of_length_eq_zero (by omega)
@@ -327,7 +334,7 @@ theorem invL_audit {p : Int} {h : List Op} {st : St} (e : AEvent) (now : Time) (
                 rw [openers_audit] at ho
                 have := (List.append_eq_nil_iff.mp ho).2
                 simp only at hc
-                simp [hty, hq, hc] at this
+                simp [hopen q hc hty hq] at this
               · exact hi.fresh (hop ho) s2 u2 hin
             · intro s2 u2 s3 u3 hm2 hm3 hp2 hp3
               rw [hs2] at hm2 hm3
@@ -368,7 +375,7 @@ theorem invL_audit {p : Int} {h : List Op} {st : St} (e : AEvent) (now : Time) (
                 rw [openers_audit] at ho
                 have := (List.append_eq_nil_iff.mp ho).2
                 simp only at hc
-                simp [hty, hq, hc] at this
+                simp [hopen q hc hty hq] at this
               · exact hi.fresh (hop ho) s2 u2 hin
             · intro s2 u2 s3 u3 hm2 hm3 hp2 hp3
               rcases mem_new hm2 with heq2 | hin2 <;> rcases mem_new hm3 with heq3 | hin3
